@@ -272,10 +272,49 @@ func genVC(P *Program, C *Contracts, S *Sorts, key string, pure map[*ssa.Functio
 			if len(tags) == 0 {
 				tags = ct.Tags
 			}
-			eo := f.oblige("ensures", e.Label, implies(retPC, substSX(e.Term, env)), tags, e.Src)
+			// returns the clause speaks about (all, or those inside loop e.Loop)
+			inScope := func(r retRec) bool {
+				if e.Loop == 0 {
+					return true
+				}
+				if r.blk < 0 || r.blk >= len(fn.Blocks) {
+					return false
+				}
+				rb := fn.Blocks[r.blk]
+				for _, li := range f.loops {
+					if li.ordinal == e.Loop {
+						// lexically inside the loop: reached through a body block other than the header
+						// (a return is never part of the natural loop, it leaves it)
+						for b := range li.blocks {
+							if b != li.head && (b == rb || b.Dominates(rb)) {
+								return true
+							}
+						}
+					}
+				}
+				return false
+			}
+			scopePC := retPC
+			if e.Loop > 0 {
+				var pcs []string
+				for _, r := range f.rets {
+					if inScope(r) {
+						pcs = append(pcs, r.pc)
+					}
+				}
+				if len(pcs) == 0 {
+					ex.fail("%s: ensures %s: no return inside loop %d", key, e.Label, e.Loop)
+					continue
+				}
+				scopePC = and(retPC, or(pcs...))
+			}
+			eo := f.oblige("ensures", e.Label, implies(scopePC, substSX(e.Term, env)), tags, e.Src)
 			if eo != nil && len(f.rets) > 1 && len(f.rets) <= 48 {
 				// one query per return site: the same clause, restricted to that site's path condition
 				for _, r := range f.rets {
+					if !inScope(r) {
+						continue
+					}
 					// the results are named by this site's own values (not by the merged if-then-else term)
 					sb := map[string]string{}
 					for k, v := range bind {
